@@ -80,6 +80,9 @@ func touchesReform(y0, y1 int) bool {
 
 func c06Run(w *W, c Case) {
 	y := c.A[0]
+	if y%10 == 1 {
+		historyTouch(w, y)
+	}
 	w.Curf("C06 lunar year %d", y)
 	w.Class(fmt.Sprintf("century%02d", y/100))
 	ly := calendar.NewLunarYear(y)
@@ -130,7 +133,12 @@ func c06Run(w *W, c Case) {
 	}
 	// accessors vs table (all years)
 	sum, lm := 0, 0
-	for _, m := range ms {
+	for i, m := range ms {
+		if !reform {
+			if mo := ly.GetMonth(m.month); mo != nil && (mo.GetIndex() != i+1 || mo.GetZhiIndex() != (i+2)%12) {
+				w.Violatef("accessors", fmt.Sprintf("%s/index/%d", key, m.month), "month %d of %d is the %d-th of the year but reports index %d, branch index %d", m.month, y, i+1, mo.GetIndex(), mo.GetZhiIndex())
+			}
+		}
 		sum += m.days
 		if m.month < 0 {
 			lm = -m.month
